@@ -290,15 +290,13 @@ def subst(t, old, new):
     return t
 
 def unwrap_param_rejections(be):
-    """The reviewed parameter rejections of C05, re-expressed over the blob (params live behind the salt)."""
-    import c05
-    out = set()
-    for s in c05.PARAM_REJECTIONS.get(be, ()):
-        if be in ("v1", "v3", "v3-aws-lc"):
-            out.add(s.replace("$params)", "$key_data[32..36])"))
-        else:
-            out.add(s.replace("$params[0..8]", "$key_data[16..24]").replace("$params[8..12]", "$key_data[24..28]").replace("$params[12..16]", "$key_data[28..32]"))
-    return out
+    """The reviewed parameter rejections of C05 (canonical atoms), re-expressed over the blob (params live behind the salt)."""
+    import c05, paramcanon
+    if be in ("v1", "v3", "v3-aws-lc"):
+        f = lambda x: x.replace("$params)", "$key_data[32..36])")
+    else:
+        f = lambda x: x.replace("$params[0..8]", "$key_data[16..24]").replace("$params[8..12]", "$key_data[24..28]").replace("$params[12..16]", "$key_data[28..32]")
+    return paramcanon.rename(c05.PARAM_REJECTIONS.get(be, ()), f)
 
 def classify_unwrap_exit(run, r, be, op):
     import c05
@@ -309,8 +307,11 @@ def classify_unwrap_exit(run, r, be, op):
         s = fmt_n(c) if c is not None else "?"
         if "VERIFY" in repr(c):
             return ("verification", "")
-        if op == "pbkw" and s in unwrap_param_rejections(be):
-            return ("param-validation", s)
+        if op == "pbkw" and g is not None:
+            import paramcanon
+            atoms = paramcanon.canon(c, g["value"])
+            if atoms and atoms <= unwrap_param_rejections(be):
+                return ("param-validation", s)
         return ("unstated", "Err exit under condition " + s[:200])
     n = run.norm.n(cause)
     s = fmt_n(n)
@@ -319,9 +320,10 @@ def classify_unwrap_exit(run, r, be, op):
     if isinstance(n, tuple) and n and n[0] in ("VERIFY", "VERIFYSIG"):
         return ("verification", "")
     if op == "pbkw":
-        s2 = s[7:-1] if s.startswith("(discr ") else s
-        if s2 in unwrap_param_rejections(be):
-            return ("param-validation", s2)
+        import paramcanon
+        atoms = paramcanon.canon(n, None)
+        if atoms and atoms <= unwrap_param_rejections(be):
+            return ("param-validation", s)
     if isinstance(cause, tuple) and cause[0] == "fallible":
         return ("library-reported", cause[2])
     if isinstance(n, tuple) and n and n[0] in ("ARGON2ID13", "ARGON2", "PBKDF2", "H", "HST", "MAC", "MACST", "CIPHER", "DH", "ENC", "ok", "PARSEPT", "RSAENC", "INT"):
